@@ -71,12 +71,13 @@ KeysExt == Keys13 \cup {I0, BF, FI, I2, SB}
 IsNumeric(k)    == k.a \in {"integer", "decimal", "double", "float"}
 IsStringLike(k) == k.a \in {"string", "anyURI", "untypedAtomic"}
 
-LexInt(x) == CASE x = "0" -> 0 [] x = "1" -> 1 [] x = "2" -> 2 [] x = "3" -> 3 [] x = "4" -> 4
-               [] x = "5" -> 5 [] x = "6" -> 6 [] x = "7" -> 7 [] x = "8" -> 8 [] x = "9" -> 9
 Digit(d) == CASE d = 0 -> "0" [] d = 1 -> "1" [] d = 2 -> "2" [] d = 3 -> "3" [] d = 4 -> "4"
               [] d = 5 -> "5" [] d = 6 -> "6" [] d = 7 -> "7" [] d = 8 -> "8" [] d = 9 -> "9"
 RECURSIVE IntLex(_)
 IntLex(n) == IF n < 10 THEN Digit(n) ELSE IntLex(n \div 10) \o Digit(n % 10)
+LexInt(x) == CASE x = "0" -> 0 [] x = "1" -> 1 [] x = "2" -> 2 [] x = "3" -> 3 [] x = "4" -> 4
+               [] x = "5" -> 5 [] x = "6" -> 6 [] x = "7" -> 7 [] x = "8" -> 8 [] x = "9" -> 9
+               [] OTHER -> CHOOSE n \in 10..999 : IntLex(n) = x       \* counts produced by histories
 IntA(n) == A("integer", IntLex(n))
 Bool(b) == IF b THEN BT ELSE BF
 
@@ -338,8 +339,9 @@ Seeds ==
     [] Profile = "deq"      -> {<<Val(u), Val(w)>> : u, w \in DeqUniverse}
     [] Profile = "mixed"    -> {S2(M2(I1, V1, SA, VA), Ar(<<V1, VM>>)), S2(M1(EN, V12), Ar(<<VE, V12, VA>>)),
                                 S2(M2(D1, VM, TA, VE), EmptyArr)}
+    [] Profile = "mixed1"   -> {S2(M1(I1, VA), Ar(<<V1, VM>>))}
     [] Profile = "selftest" -> {S1(Ar(<<V1, V2>>))}
-NSeed == CASE Profile \in {"merge", "merge13", "deq", "mixed"} -> 2 [] Profile = "cons" -> 0 [] OTHER -> 1
+NSeed == CASE Profile \in {"merge", "merge13", "deq", "mixed", "mixed1"} -> 2 [] Profile = "cons" -> 0 [] OTHER -> 1
 
 MapActs == {"MapPut", "MapRemove", "MapGet", "MapContains", "MapSize", "MapKeys", "MapFind", "MapForEach",
             "MapMerge", "MapEntry", "Lookup", "DeepEqual"}
@@ -352,20 +354,22 @@ Acts ==
     [] Profile \in {"arrays", "arrays3", "arrays2"} -> ArrActs
     [] Profile = "cons"     -> {"MapCons", "ArrCons"}
     [] Profile = "deq"      -> {"DeepEqual"}
-    [] Profile = "mixed"    -> MapActs \cup ArrActs
+    [] Profile \in {"mixed", "mixed1"} -> MapActs \cup ArrActs
     [] Profile = "selftest" -> {"ArrPut", "ArrAppend", "ArrInsertBefore", "ArrGet"}
 On(name) == name \in Acts
 
 PKeys == CASE Profile = "keys" -> KeysExt [] Profile = "keys13" -> Keys13 [] Profile = "keys7" -> Keys7
-           [] Profile = "mixed" -> (IF Lite THEN {I1, D1, EN} ELSE {I1, D1, SA, EN}) [] OTHER -> SmallKeys
+           [] Profile = "mixed" -> (IF Lite THEN {I1, D1, EN} ELSE {I1, D1, SA, EN})
+           [] Profile = "mixed1" -> {I1, D1} [] OTHER -> SmallKeys
 PVals == CASE Profile \in {"keys", "keys13", "keys7"} -> {V2}
            [] Profile = "selftest" -> {V12}
+           [] Profile = "mixed1" -> {VA}
            [] Lite -> {V2, VA}
            [] Profile = "mixed" -> {V2, VE, V12, VA}
            [] OTHER -> Vals6
 RemoveSeqs == {<<k>> : k \in PKeys} \cup
               (IF Profile \in {"mapvals", "mixed"} /\ ~Lite THEN {<<>>, <<I1, SA>>, <<D1, EN>>, <<SA, SA>>} ELSE {})
-PIdx == CASE Lite \/ Profile = "mixed" -> 0..3 [] OTHER -> Neg1..4
+PIdx == CASE Profile = "mixed1" -> 0..2 [] Lite \/ Profile = "mixed" -> 0..3 [] OTHER -> Neg1..4
 PLen == IF Lite THEN {Neg1, 1} ELSE Neg1..3
 RemovePos == IF Lite THEN {<<>>, <<1>>, <<3>>, <<2, 1>>}
              ELSE {<<i>> : i \in 0..4} \cup {<<>>, <<1, 2>>, <<2, 1>>, <<1, 1>>, <<3, 1>>, <<1, 4>>}
